@@ -136,6 +136,13 @@ pub fn fill(seed: u32, len: usize) -> Vec<u8> {
             let pat: &[u8] = b"GET / HTTP/1.1\r\nHost: example.org\r\n\r\n";
             out.iter_mut().enumerate().for_each(|(i, b)| *b = pat[i % pat.len()])
         }
+        SEED_COUNTED => {
+            // a counted string: the first byte states how many bytes follow (ALPN wire form, DNS labels, Pascal strings)
+            out.iter_mut().enumerate().for_each(|(i, b)| *b = b"http/1.1-h2-spdy/3"[i % 18]);
+            if let Some(first) = out.first_mut() {
+                *first = ((len - 1) & 0xff) as u8;
+            }
+        }
         _ => {}
     }
     out
@@ -152,11 +159,14 @@ pub const SEED_TLS: u32 = 0xffff_fffc;
 pub const SEED_HTTP: u32 = 0xffff_fffa;
 /// (TLV values only, see bld::tlv_value) the value is itself the encoding of a TLV of the same type
 pub const SEED_NESTED: u32 = 0xffff_fffb;
+/// a counted string (first byte = number of bytes that follow)
+pub const SEED_COUNTED: u32 = 0xffff_fff9;
 
 /// A fill seed from the tape: mostly random content, but one value in four is one of the content classes
 /// (all zero / all 0xFF / ASCII letters / signature bytes) that pure random bytes never produce.
 pub fn gen_seed(t: &mut Tape) -> u32 {
-    match t.weighted(&[24, 4, 2, 2, 2, 1, 1, 1]) {
+    match t.weighted(&[24, 4, 2, 2, 2, 1, 1, 1, 1]) {
+        8 => SEED_COUNTED,
         0 => t.u32() | 1,
         1 => 0,
         2 => SEED_ONES,
@@ -694,7 +704,7 @@ impl Runner {
             only: None,
             regress: Vec::new(),
             started: Instant::now(),
-            journal: false,
+            journal: true,
             triage: false,
             replay_tape: None,
             cold_child: None,
